@@ -960,6 +960,47 @@ func srcSwitches(repo string, b *strings.Builder) bool {
 			}
 		}
 	}
+	// metadataToConfig copies every value as it is (`m[k] = v` with k, v the range variables) and configToMetadata takes
+	// string members only (one type assertion to string, no type switch)
+	metaStrings := false
+	if _, f4, err := ParseGoFile(repo, "pkg/config/v2/common.go"); err != nil {
+		ok = false
+	} else if m2c, c2m := FindFunc(f4, "", "metadataToConfig"), FindFunc(f4, "", "configToMetadata"); m2c == nil || c2m == nil {
+		ok = false
+	} else {
+		copies, otherWrites := false, 0
+		ast.Inspect(m2c.Body, func(n ast.Node) bool {
+			if rs, isR := n.(*ast.RangeStmt); isR && rs.Key != nil && rs.Value != nil {
+				for _, st := range rs.Body.List {
+					as, isAs := st.(*ast.AssignStmt)
+					if isAs && len(as.Lhs) == 1 && len(as.Rhs) == 1 && exprStr(as.Lhs[0]) == "m["+exprStr(rs.Key)+"]" && exprStr(as.Rhs[0]) == exprStr(rs.Value) {
+						copies = true
+					} else {
+						otherWrites++
+					}
+				}
+			}
+			return true
+		})
+		asserts, switches, calls := 0, 0, 0
+		ast.Inspect(c2m.Body, func(n ast.Node) bool {
+			switch x := n.(type) {
+			case *ast.TypeAssertExpr:
+				if x.Type != nil && exprStr(x.Type) == "string" {
+					asserts++
+				} else {
+					switches++
+				}
+			case *ast.TypeSwitchStmt:
+				switches++
+			case *ast.CallExpr:
+				calls++
+			}
+			return true
+		})
+		metaStrings = copies && otherWrites == 0 && asserts == 1 && switches == 0 && calls == 0
+	}
+	fmt.Fprintf(b, "(* the metadata coder copies strings: metadataToConfig stores every value unchanged, configToMetadata takes string members only *)\nDefinition src_metadata_strings_only := %v.\n", metaStrings)
 	fmt.Fprintf(b, "(* SetHosts stores its argument for a known cluster: no other branch, no early return *)\nDefinition src_sethosts_stores_argument := %v.\n", setHostsExact)
 	fmt.Fprintf(b, "Definition src_redact_copies_servers := %v.\n", copiesServers && copiesListeners)
 	fmt.Fprintf(b, "Definition src_redact_handles_extends := %v.\n", handlesExt)
